@@ -143,7 +143,12 @@ def _line_extra():
         return
     got = (loc['_status'], loc['_result'], loc['_pos'])
     rec['checked'] += 1
-    if not (bool(got[0]) == bool(exp[0]) and got[1] is exp[1] and got[2] == exp[2]):
+    same = got[1] is exp[1]
+    if not same and not got[0] and not exp[0]:
+        # "the same failure": a failure descriptor need not be the same object, only the same failure
+        same = (getattr(got[1], '__name__', None) is not None
+                and getattr(got[1], '__name__', None) == getattr(exp[1], '__name__', None)) or got[1] == exp[1]
+    if not (bool(got[0]) == bool(exp[0]) and same and got[2] == exp[2]):
         rec['viol'].append({'check': 'same-outcome', 'rule': R.rule_codes[co], 'pos': pos,
                             'sent': [bool(got[0]), fpm.norm_text(repr(got[1]))[:80], got[2]],
                             'first': [bool(exp[0]), fpm.norm_text(repr(exp[1]))[:80], exp[2]],
